@@ -65,7 +65,7 @@ def run(prog: Program, rep: Report, tier: str) -> None:
     rep.rule("R10.2", "record getters and SwitcherSchedule wiring: id=decimal rec[0], recurring <=> rec[2] != 0, days=bit_summary_to_days(rec[2]) or {} , start/end = local HH:MM of LE32 rec[4:8]/rec[8:12], duration=calc_duration(start,end), display=pretty_next_run(start,days)", 14)
     rep.rule("R10.3", "schedule identity is the slot id: __hash__ and __eq__ depend on schedule_id only", 2)
     rep.rule("R10.5", "nothing on the listing path is memoised (the local-time decoder depends on the host zone; parsed schedules must reflect the reply just read)", 3, structural=True)
-    rep.rule("R10.4", "writer/reader agreement: the record create_schedule emits has days/start/end at the offsets and widths the reader uses, the same byte order, mktime<->localtime (both local), '%H:%M' on both sides, and the non-recurring constant the reader tests against", 6)
+    rep.rule("R10.4", "writer/reader agreement: the record create_schedule emits has days/start/end at the offsets and widths the reader uses, the same byte order, mktime<->localtime (both local), '%H:%M' on both sides, the non-recurring constant the reader tests against, and an empty day collection is written as that constant (not refused)", 7)
     rep.trusted += [
         "textwrap.wrap on whitespace-free text yields consecutive chunks of the given width ('' -> [])",
         "time.mktime / time.localtime are inverse on existing local times (libc; the zone/DST behaviour itself is not decided, see C11)",
@@ -218,6 +218,31 @@ def run(prog: Program, rep: Report, tier: str) -> None:
                       key=f"R10.4|encoder|{role}")
     if not checked:
         rep.undecided("R10.4", "writer", wherew, "no returning path of create_schedule with a command frame")
+    # an empty day collection is the one-time schedule: some path an empty collection can take writes the command frame,
+    # and its day field is the non-recurring constant (the reader's `!= "00"` test)
+    days_sym = ("sym", "days", ("set", ("enum", "aioswitcher.schedule:Days")))
+    empty_facts = F.collection_facts(days_sym, True, None)
+    sent_empty = []
+    for o in oouts:
+        if A.excluded_by_assumptions(o.state.pc) or len(A.writes(o)) < 2:
+            continue
+        if any(F.guard_under(g, empty_facts) is False for g in F.flat_pc(list(o.state.pc))):
+            continue
+        sent_empty.append(o)
+    if checked:
+        ok_e = False
+        for o in sent_empty:
+            sp = F.split_signed(A.writes(o)[1].args[0])
+            if sp:
+                mm_, holes_ = F.match_layout(sp[0], toks)
+                if not mm_ and F.literal(holes_.get("ARG:days")) == "00":
+                    ok_e = True
+        refused = sorted({o.exc_name for o in oouts if o.kind == "raise" and len(A.writes(o)) <= 1 and not A.excluded_by_assumptions(o.state.pc)
+                          and not any(F.guard_under(g, empty_facts) is False for g in F.flat_pc(list(o.state.pc)))
+                          and any(F.guard_under(g, F.collection_facts(days_sym, False, None)) is False for g in F.flat_pc(list(o.state.pc)))})
+        rep.check(ok_e, "R10.4", "an empty day set is written as the non-recurring record", wherew,
+                  f"no path that an empty day collection can take writes the command frame with day field '00'" + (f" (it is refused with {refused} before the command frame)" if refused else "")
+                  + ": a one-time schedule can no longer be created, so nothing reads back", key="R10.4|empty-days")
     nonrec = prog.const("aioswitcher.api.packets:NON_RECURRING_SCHEDULE")
     rep.check(nonrec == "00", "R10.4", "non-recurring constant", "src/aioswitcher/api/packets.py NON_RECURRING_SCHEDULE", f"writer's non-recurring mask is {nonrec!r}; the reader treats exactly '00' as non-recurring", key="R10.4|nonrecurring")
     rep.extra["programs"] = 3
